@@ -352,8 +352,9 @@ func c06Eval(s *comp.VerifMsiSnapshot, mem []int8) []string {
 }
 
 // auxiliary observations (not clauses of C06; reported in the evidence):
-//   l3stale: MVP-8 — an L3 line that is not marked written (l3Write) differs from memory
-//   lockacct: the lock counters of a line differ from the number of lock-table entries of the cores
+//
+//	l3stale: MVP-8 — an L3 line that is not marked written (l3Write) differs from memory
+//	lockacct: the lock counters of a line differ from the number of lock-table entries of the cores
 func c06Aux(s *comp.VerifMsiSnapshot, mem []int8) (l3stale bool, lockacct bool) {
 	dirty := map[int32]bool{}
 	for _, a := range s.L3Dirty {
@@ -950,7 +951,7 @@ func c06RunRig(runID, caseID int, vname string, cores int, c c06RigCase, maxEmit
 		queues[o.Core] = append(queues[o.Core], o)
 	}
 	active := make([]bool, cores) // the head of the queue has been presented at least once
-	ready := make([]int, cores) // first cycle at which the head of the queue may be presented
+	ready := make([]int, cores)   // first cycle at which the head of the queue may be presented
 	for k := range ready {
 		if len(queues[k]) > 0 {
 			ready[k] = 1 + queues[k][0].Delay
